@@ -161,10 +161,8 @@ func facts(repo string) (string, error) {
 	for _, fn := range []string{"*RoaringBitmap.Add", "*RoaringBitmap.Remove", "*RoaringBitmap.Contains"} {
 		split = split && strings.HasPrefix(bodies[fn], "{ high := uint16(num >> 16) low := uint16(num) ")
 	}
-	bitSplit := true
-	for _, fn := range []string{"*Bitmap.Add", "*Bitmap.Remove", "*Bitmap.Contains", "*Bitmap.add"} {
-		bitSplit = bitSplit && strings.HasPrefix(bodies[fn], "{ index, bit := int(num>>6), num&63 ")
-	}
+	// (the text fact bitSplitShape about Bitmap.Add/Remove/Contains/add is retired: since wave 9 those four
+	// functions are regenerated by go2lean and tied by c03_trans_Bitmap_{Add,Remove,Contains,add})
 	cachedLen := bodies["*Bits.Add"] == "{ if b.Bitmap.Add(num) { b.length++ return true } return false }" &&
 		bodies["*Bits.Remove"] == "{ if b.Bitmap.Remove(num) { b.length-- return true } return false }" &&
 		bodies["*Bits.Len"] == "{ return b.length }" &&
@@ -211,7 +209,6 @@ func facts(repo string) (string, error) {
 	fmt.Fprintf(&b, "/-- BitmapIter.Next (read flag, `bi.j < 64`, `bi.i++; bi.j = 0`) / Value (`bi.i<<6 + bi.j`, truncated to uint16) as modelled -/\ndef bitmapIterShape : Bool := %v\n", bitmapIterNext)
 	fmt.Fprintf(&b, "/-- RoaringBitmapIter.Value = `uint32(i.node.Key())<<16 | uint32(i.iter.Value())` -/\ndef iterValueShape : Bool := %v\n", iterValue)
 	fmt.Fprintf(&b, "/-- Add/Remove/Contains start with `high := uint16(num >> 16); low := uint16(num)` -/\ndef splitShape : Bool := %v\n", split)
-	fmt.Fprintf(&b, "/-- Bitmap.Add/Remove/Contains/add start with `index, bit := int(num>>6), num&63` -/\ndef bitSplitShape : Bool := %v\n", bitSplit)
 	fmt.Fprintf(&b, "/-- Bits.Add/Remove/Len keep the cached length (`length++` / `length--` exactly when the Bitmap answers true); bitmapContainer delegates to them -/\ndef cachedLenShape : Bool := %v\n", cachedLen)
 	fmt.Fprintf(&b, "/-- setZero: `for i := 0; i < N; i += S` assigning b.set[i] … b.set[i+S-1] = 0, S | N (0: shape not found) -/\ndef setZeroWords : Nat := %s\n", setZero)
 	fmt.Fprintf(&b, "/-- `search` is the loop the model's searchLoop mirrors -/\ndef searchShape : Bool := %v\n", searchBody)
